@@ -209,7 +209,9 @@ func setup() {
 		defFilt("elision#fr", "elision", map[string]interface{}{"articles_token_map": "articles_fr"}, constT(cf.App("FElision", bytesList(tokenMapWords("articles_fr")))), false)
 		defFilt("elision#c19", "elision", map[string]interface{}{"articles_token_map": "c19_words"}, constT(cf.App("FElision", bytesList(c19Words))), false)
 		defFilt("hierarchy#/", "hierarchy", map[string]interface{}{"max": 10.0, "delimiter": "/", "split_input": true}, nil, false)
-		defFilt("hierarchy#nosplit", "hierarchy", map[string]interface{}{"delimiter": " ", "split_input": false}, nil, false)
+		// "max" is optional in the constructor (default math.MaxInt64)
+		defFilt("hierarchy#default-max", "hierarchy", map[string]interface{}{"delimiter": "/"}, nil, false)
+		defFilt("hierarchy#nosplit", "hierarchy", map[string]interface{}{"max": 2.0, "delimiter": " ", "split_input": false}, nil, false)
 		defFilt("keyword_marker#c19", "keyword_marker", map[string]interface{}{"keywords_token_map": "c19_words"}, constT(cf.App("FKeyword", bytesList(c19Words))), false)
 		defFilt("length#3-6", "length", map[string]interface{}{"min": 3.0, "max": 6.0}, constT("(FLength 3 6)"), false)
 		defFilt("length#2-", "length", map[string]interface{}{"min": 2.0}, constT("(FLength 2 0)"), false)
@@ -331,7 +333,7 @@ var pieces = []string{
 	"日本語", "日本", "語", "こんにちは", "カタカナ", "한국어", "中文分词",
 	"مرحبا", "بالعالم", "كتاب", "سلام", "دنیای", "می‌روم",
 	"สวัสดี", "ภาษาไทย", "привет", "мир", "Ελληνικά", "हिन्दी", "नमस्ते", "שלום",
-	"é", "à́", "o⃝", "कः", "́", "ño", "‌", "‍", " ", "\u0085", " ", "﻿",
+	"é", "à́", "o⃝", "कः", "́", "ño", "‌", "‍", " ", "\u0085", " ", "\ufeff",
 	"🙂", "👨‍👩‍👧", "🇩🇪", "\U0010ffff", "�",
 	"12", "3.14", "1,000", "2024-01-02", "0x1f",
 	"http://example.com/a?b=c", "user@example.com", "#tag", "@handle", "www.x.org", "file:///tmp/x",
@@ -778,6 +780,9 @@ func exec(in In) vh.Result {
 		var out analysis.TokenStream
 		if d := vh.Guard(watchdog, fmt.Sprintf("token filter %s after %s on %q", in.Comp, in.Tok, trunc(in.Data)), func() { out = c.filt.Filter(ts) }); d != nil {
 			class := "filter-" + d.Kind + ":" + c.base
+			if c.base == "hierarchy" && in.Comp == "hierarchy#default-max" {
+				class = "hierarchy-default-max"
+			}
 			if c.base == "reverse" && !utf8.Valid(in.Data) {
 				class = "reverse-invalid-utf8"
 			}
